@@ -300,7 +300,7 @@ Proof. exact FrameProofs.frame_set_links. Qed.
 
 (* the facades and operators on ONE task are calls of the setters, so the frames above are theirs
    (move / sort / reorder / the second phase of insert: C16_frame_only_kids; the remove_all loops and the
-   list-level operators are sequences of such calls) *)
+   list-level operators are sequences of such calls; bulk children / predecessors / successors: the C16_lst_set theorems) *)
 Theorem C16_frame_derived : forall s,
   (forall o t, step' s (ChAppend o (Some t)) = step' s (SetParent t (Some o))) /\
   (forall o t, In t (kids (get (hp s) o)) ->
@@ -313,6 +313,68 @@ Theorem C16_frame_derived : forall s,
   (forall d t x, ~ In x (fwd d (get (hp s) t)) -> step' s (LnRemove d t (Some x)) = (s, OK)) /\
   (forall d t vs, step' s (OpShift d t vs) = step' s (SetLinks d t (map Some (fwd d (get (hp s) t)) ++ vs))).
 Proof. exact FrameProofs.frame_derived. Qed.
+
+(* ---- bulk assignment on a task list: lst.predecessors = vs / lst.successors = vs / lst.children = vs ----
+   The call IS one setter call per element of the list, in the order of the list, every one with the same value
+   (materialised once), undone as a whole when one of them raises (C15); ts = the elements of the list. *)
+Theorem C16_lst_set_is : forall s ts vs d,
+  step' s (LstSetChildren ts vs) = all_or_nothing s (seq_calls (fun s' t => set_children s' t vs) s ts) /\
+  step' s (LstSetLinks d ts vs) = all_or_nothing s (seq_calls (fun s' t => set_links d s' t vs) s ts).
+Proof. intros. split; reflexivity. Qed.
+
+(* an accepted lst.predecessors = vs (d = true) / lst.successors = vs: EVERY element of the list has exactly the given
+   tasks (None dropped, first occurrences, given order); the lists of that kind of all other tasks are unchanged;
+   the mirror list of x: for each element t of the list in turn, t is taken out and - when x is among the given
+   tasks - put back at the end (mirror_step); hierarchy, owners, attributes unchanged; the result is well-formed *)
+Theorem C16_lst_set_links : forall d s ts vs s',
+  WF s -> pub_args s (LstSetLinks d ts vs) = true -> step s (LstSetLinks d ts vs) = (s', OK) ->
+  let h := hp s in
+  let h' := hp s' in
+  let value := dedup (somes vs) in
+  WF s' /\ wroots s' = wroots s /\ length h' = length h /\
+  (forall t, In t ts -> fwd d (get h' t) = value) /\
+  (forall x, ~ In x ts -> fwd d (get h' x) = fwd d (get h x)) /\
+  (forall x, bwd d (get h' x) = fold_left (FrameProofs.mirror_step (memn x value)) ts (bwd d (get h x))) /\
+  (forall x, core (get h' x) = core (get h x)).
+Proof. exact FrameProofs.step_lst_set_links_effect. Qed.
+
+Theorem C16_mirror_step : forall b l t, FrameProofs.mirror_step b l t = without t l ++ (if b then [t] else []).
+Proof. reflexivity. Qed.
+
+(* for a list without repeated elements: the former partners outside the list keep their order, the elements of
+   the list follow in the order of the list *)
+Theorem C16_lst_set_links_mirror : forall d s ts vs s',
+  WF s -> pub_args s (LstSetLinks d ts vs) = true -> step s (LstSetLinks d ts vs) = (s', OK) -> NoDup ts ->
+  forall x, bwd d (get (hp s') x) =
+            others ts (bwd d (get (hp s) x)) ++ (if memn x (dedup (somes vs)) then ts else []).
+Proof. exact FrameProofs.step_lst_set_links_NoDup. Qed.
+
+(* an accepted lst.children = vs on a non-empty list with last element tn: tn has exactly the given tasks as its
+   children; every OTHER element of the list ends with no children (each element takes the tasks away from the
+   one before it, and its own former children are released); every task outside the list keeps its children
+   except the given ones; the given tasks have tn as parent, the former children of the list's elements that are
+   not given have no parent, every other parent is unchanged; links and attributes are unchanged; the result is
+   well-formed (the owners are those the new hierarchy determines) *)
+Theorem C16_lst_set_children : forall s ts vs s',
+  WF s -> pub_args s (LstSetChildren ts vs) = true -> step s (LstSetChildren ts vs) = (s', OK) -> ts <> [] ->
+  let h := hp s in
+  let h' := hp s' in
+  let value := dedup (somes vs) in
+  let tn := last ts 0 in
+  WF s' /\ wroots s' = wroots s /\ length h' = length h /\
+  (forall q, kids (get h' q) = if Nat.eqb q tn then value
+                               else if memn q ts then []
+                               else filter (fun c => negb (memn c value)) (kids (get h q))) /\
+  (forall x, par (get h' x) = if memn x value then Some tn
+                              else if existsb (fun t => memn x (kids (get h t))) ts then None
+                              else par (get h x)) /\
+  (forall x, ChildrenProofsWrite.rest (get h' x) = ChildrenProofsWrite.rest (get h x)).
+Proof. exact FrameProofs.step_lst_set_children_effect. Qed.
+
+(* on an empty list nothing happens *)
+Theorem C16_lst_set_nil : forall s vs d, oklist s vs = true ->
+  step s (LstSetChildren [] vs) = (s, OK) /\ step s (LstSetLinks d [] vs) = (s, OK).
+Proof. exact FrameProofs.step_lst_set_nil. Qed.
 
 (* ---- non-vacuity: a reachable well-formed state on which a call of every kind above is accepted ---- *)
 Definition c16_demo : state :=
@@ -351,6 +413,24 @@ Example c16_demo_setters :
    snd (step c16_demo (SetLinks true 1 [])) = OK /\ succs (get (hp c16_demo) 4) = [1] /\ succs (get (hp s') 4) = []).
 Proof. vm_compute. repeat split; reflexivity. Qed.
 
+(* bulk assignment on the demo state (0 > 1, 2, 3; free task 4; 1 depends on 4):
+   [2; 3].successors = (4, None, 4) accepted - both have [4], 4 has predecessors [2; 3];
+   [2; 4].predecessors = [1] rejected by the second element (cycle 4 -> 1 -> 4), nothing changed;
+   [2; 3].children = [4] accepted - 4 ends below the LAST element, 2 has no children;
+   [4; 2].children = [3; 2] accepted by 4, rejected by 2 (itself), nothing changed *)
+Example c16_demo_bulk :
+  (let r := step c16_demo (LstSetLinks false [2; 3] [Some 4; None; Some 4]) in
+   pub_args c16_demo (LstSetLinks false [2; 3] [Some 4; None; Some 4]) = true /\ snd r = OK /\
+   succs (get (hp (fst r)) 2) = [4] /\ succs (get (hp (fst r)) 3) = [4] /\ preds (get (hp (fst r)) 4) = [2; 3]) /\
+  (let r := step c16_demo (LstSetLinks true [2; 4] [Some 1]) in snd r = Err /\ fst r = c16_demo /\
+   snd (set_links true c16_demo 2 [Some 1]) = OK) /\
+  (let r := step c16_demo (LstSetChildren [2; 3] [Some 4]) in
+   pub_args c16_demo (LstSetChildren [2; 3] [Some 4]) = true /\ snd r = OK /\
+   kids (get (hp (fst r)) 2) = [] /\ kids (get (hp (fst r)) 3) = [4] /\ par (get (hp (fst r)) 4) = Some 3) /\
+  (let r := step c16_demo (LstSetChildren [4; 2] [Some 3; Some 2]) in snd r = Err /\ fst r = c16_demo /\
+   snd (set_children c16_demo 4 [Some 3; Some 2]) = OK).
+Proof. vm_compute. repeat split; reflexivity. Qed.
+
 Print Assumptions C16_move.
 Print Assumptions C16_move_one.
 Print Assumptions C16_insert.
@@ -386,6 +466,13 @@ Print Assumptions C16_frame_set_parent.
 Print Assumptions C16_frame_set_children.
 Print Assumptions C16_frame_set_links.
 Print Assumptions C16_frame_derived.
+Print Assumptions C16_lst_set_is.
+Print Assumptions C16_lst_set_links.
+Print Assumptions C16_mirror_step.
+Print Assumptions C16_lst_set_links_mirror.
+Print Assumptions C16_lst_set_children.
+Print Assumptions C16_lst_set_nil.
+Print Assumptions c16_demo_bulk.
 Print Assumptions c16_demo_WF.
 Print Assumptions c16_demo_accepted.
 Print Assumptions c16_demo_setters.
